@@ -267,13 +267,13 @@ BuildC20(d) ==
       any == RefFor(F, Weights(NR(M), ds, 8))                 \* a feasible, not necessarily optimal solution
       sc == ScaleBoundary(M, sol, ds, 16)
       base == [NoSum EXCEPT !.sol = sol, !.frame = [r \in RIdx(M) |-> <<0, 0>>], !.c2 = M.c]
+      fr == DrawFrame(M, sol, ds, 22)
       \* solutions whose objective_value is NOT the current objective at their fluxes
       o2 == (ds[41] % NR(M)) + 1
       cnew == [r \in RIdx(M) |-> IF r = o2 THEN 1 + (ds[42] % 2) ELSE IF r = ((o2 % NR(M)) + 1) THEN (ds[43] % 3) - 1 ELSE 0]
       foreign == <<[base EXCEPT !.k = "model", !.solgiven = FALSE, !.sol = ZeroVec(M), !.passpfba = TRUE],
                    [base EXCEPT !.k = "model", !.stale = TRUE, !.c2 = cnew],
                    [base EXCEPT !.k = "model", !.stale = TRUE, !.c2 = cnew, !.sol = any, !.fvak = "frame", !.frame = fr]>>
-      fr == DrawFrame(M, sol, ds, 22)
       variants(k, i) ==
         <<[base EXCEPT !.k = k, !.idx = i],
           [base EXCEPT !.k = k, !.idx = i, !.fvak = "frame", !.frame = fr],
